@@ -138,3 +138,34 @@ def canary_never_grows(geometry, tb):
     if not valid_geometry(geometry) or tb < 0:
         return True
     return bounds_of(buffer_geometry(geometry, tb, 0))[2] <= bounds_of(geometry)[2]
+
+
+class BufferGeometryBounds:
+    """buffer_geometry stated over bounds only (so that callers can keep geometries opaque): proved per type in C11,
+    used by C06/C07."""
+    target = "soundevent.geometry.operations:buffer_geometry"
+    types = {"geometry": "Opq:Geometry", "time_buffer": "float", "freq_buffer": "float"}
+    result = "Opq:Geometry"
+    result_switch = ("geometry", {"TimeStamp": "Obj:soundevent.data.geometries.TimeInterval",
+                                  "TimeInterval": "Obj:soundevent.data.geometries.TimeInterval",
+                                  "BoundingBox": "Obj:soundevent.data.geometries.BoundingBox"})
+    pure = True
+
+    def requires(geometry):
+        return valid_geometry(geometry)
+
+    def raises_ValueError(time_buffer, freq_buffer):
+        return time_buffer < 0 or freq_buffer < 0
+
+    def ensures(geometry, time_buffer, freq_buffer, result):
+        b = bounds_of(geometry)
+        r = bounds_of(result)
+        t = geometry.type
+        if t == "TimeStamp" or t == "TimeInterval":
+            return (result.type == "TimeInterval" and valid_geometry(result)
+                    and r[0] == max(b[0] - time_buffer, 0) and r[1] == 0 and r[2] == b[2] + time_buffer and r[3] == MAX_FREQUENCY)
+        if t == "BoundingBox":
+            return (result.type == "BoundingBox" and valid_geometry(result)
+                    and r[0] == max(b[0] - time_buffer, 0) and r[1] == max(b[1] - freq_buffer, 0)
+                    and r[2] == b[2] + time_buffer and r[3] == min(b[3] + freq_buffer, MAX_FREQUENCY))
+        return valid_geometry(result) and (result.type == "Polygon" or result.type == "MultiPolygon")
